@@ -366,6 +366,31 @@ def reader_drains(P, R, rule='C03.MPT.3'):
     R.floor(rule, 4)
 
 
+def service_names_caseless(P, R, rule='C03.TAB.4'):
+    """Server names are case-insensitive on the network: the name a reply carries is the service's own idea of its
+    spelling, not the one in the configuration file.  Where a reply handler matches the service word of a reply against
+    a configured name, the comparison ignores case (as the class module's lookup of a service already does) - compared
+    byte for byte, the answer of `Login.Example.Org` to a query sent to `login.example.org` is dropped and the client
+    it was about waits for ever."""
+    from .c05 import reply_closure
+    n = 0
+    for f in reply_closure(P).values():
+        for s in f.calls():
+            c = s.ev.get('callee')
+            if c not in ('strcmp', 'strncmp', 'strcasecmp', 'strncasecmp', 'memcmp', 'irccasecmp'):
+                continue
+            args = s.ev['args'][:2]
+            if len(args) < 2:
+                continue
+            named = [a for a in args if any(x.get('k') == 'mem' and x.get('field') == 'name' and 'service' in (x.get('rec') or '') for x in walk(a))]
+            wire = [a for a in args if is_var(a) and a['name'] in f.params]
+            if not (named and wire):
+                continue
+            n += 1
+            R.ob(rule, c in ('strcasecmp', 'strncasecmp', 'irccasecmp'), s, 'the service word of a reply (%s) is matched against the configured name without regard to case (compared with %s)' % (sx(wire[0]), c), key='caseless:%s' % f.name)
+    R.floor(rule, 1, 'comparisons of a reply\'s service word with a configured name')
+
+
 def run(P, R, tier):
     # a reply can only end the wait if its routing tag is read back the way it was written
     r, sepch, idv, serv = c04.tag_tables(P, Remap(R, {'C04.TAB.1': 'C03.TAB.1'}))
@@ -394,6 +419,9 @@ def run(P, R, tier):
     # the timed-out bit that voids the soft holds is the request's own (the gate's formula, shared with C02)
     from . import c02
     c02.gate_guard(P, Remap(R, {'C02.GRD.1': 'C03.GRD.5'}))
+    # a final answer the handler does not recognise leaves the hold in place for good
+    c02.answers_settle(P, R, 'C03.MPT.4')
+    service_names_caseless(P, R)
     # a reply whose serial is compared in a narrower type is dropped once the counter outgrows it
     c04.validated_return(P, Remap(R, {'C04.GRD.1': 'C03.GRD.4'}, keys=('width:',)), r, sepch, idv, serv)
     # a retired service slot stays while a client still waits for its reply (the reply is what ends the wait)
